@@ -300,6 +300,46 @@ fn marker_probes() -> Vec<Probe> {
         // a cache of Send-but-not-Sync values may still be moved to another thread
         add(row.clone(), "send_sync_marker", false, format!("is_send::<{}>();", t("u64", "Cell<u8>")));
     }
+    // values that are Sync but not Send (a MutexGuard): an iterator that hands out `&mut V` moves the values'
+    // mutable access to the receiving thread, so it needs V: Send, not V: Sync
+    for it in mutable.iter() {
+        let row = format!("iterator {}", it);
+        add(row.clone(), "send_sync_marker", true, format!("is_send::<caches::lru::{}<'static, u8, std::sync::MutexGuard<'static, u8>>>();", it));
+    }
+    for (name, tmpl) in caches {
+        let row = format!("cache type {}", name);
+        let t = tmpl.replace("{K}", "u8").replace("{V}", "std::sync::MutexGuard<'static, u8>");
+        add(row.clone(), "send_sync_marker", true, format!("is_send::<{}>();", t));
+        let t = tmpl.replace("{K}", "std::sync::MutexGuard<'static, u8>").replace("{V}", "u8");
+        add(row.clone(), "send_sync_marker", true, format!("is_send::<{}>();", t));
+    }
+    // the other type parameters are contents too: an eviction callback or a BuildHasher that is not Send/Sync
+    // (it holds an Rc) must keep the cache from being Send/Sync
+    {
+        let defs = "struct CbRc(Rc<u8>);\n    impl caches::OnEvictCallback for CbRc { fn on_evict<K, V>(&self, _: &K, _: &V) {} }\n    struct CbOk(u8);\n    impl caches::OnEvictCallback for CbOk { fn on_evict<K, V>(&self, _: &K, _: &V) {} }\n    #[derive(Clone, Default)] struct HRc(Rc<u8>);\n    impl std::hash::BuildHasher for HRc { type Hasher = std::collections::hash_map::DefaultHasher; fn build_hasher(&self) -> Self::Hasher { Default::default() } }\n    ".replace("\\n", "\n");
+        let row = "cache type RawLRU (callback / hasher parameters)".to_string();
+        add(row.clone(), "send_sync_marker", false, format!("{}is_send::<caches::RawLRU<u64, String, CbOk>>(); is_sync::<caches::RawLRU<u64, String, CbOk>>();", defs));
+        add(row.clone(), "send_sync_marker", true, format!("{}is_send::<caches::RawLRU<u64, String, CbRc>>();", defs));
+        add(row.clone(), "send_sync_marker", true, format!("{}is_sync::<caches::RawLRU<u64, String, CbRc>>();", defs));
+        add(row.clone(), "send_sync_marker", true, format!("{}is_send::<caches::RawLRU<u64, String, caches::DefaultEvictCallback, HRc>>();", defs));
+        add(row.clone(), "send_sync_marker", true, format!("{}is_sync::<caches::RawLRU<u64, String, caches::DefaultEvictCallback, HRc>>();", defs));
+        for (name, ty) in [
+            ("SegmentedCache", "caches::SegmentedCache<u64, String, HRc, HRc>"),
+            ("TwoQueueCache", "caches::TwoQueueCache<u64, String, HRc, HRc, HRc>"),
+            ("AdaptiveCache", "caches::AdaptiveCache<u64, String, HRc, HRc, HRc, HRc>"),
+        ] {
+            let row = format!("cache type {} (hasher parameters)", name);
+            add(row.clone(), "send_sync_marker", true, format!("{}is_send::<{}>();", defs, ty));
+            add(row.clone(), "send_sync_marker", true, format!("{}is_sync::<{}>();", defs, ty));
+        }
+        // really moving a cache with an Rc-holding callback to another thread
+        add(
+            row.clone(),
+            "send_sync_marker",
+            true,
+            format!("{}let rc = Rc::new(0u8); let c: caches::RawLRU<u64, u8, CbRc> = caches::RawLRU::with_on_evict_cb(2, CbRc(rc.clone())).unwrap();\n    std::thread::spawn(move || {{ let mut c = c; c.put(1, 1); c.put(2, 2); c.put(3, 3); }});\n    use_it(rc);", defs).replace("\\n", "\n"),
+        );
+    }
     // W-TinyLFU (keys must be hashable for the type to be well-formed)
     let row = "cache type WTinyLFUCache".to_string();
     add(row.clone(), "send_sync_marker", false, "is_send::<caches::WTinyLFUCache<u64, String>>(); is_sync::<caches::WTinyLFUCache<u64, String>>();".to_string());
